@@ -389,6 +389,12 @@ class Machine:
                 return self.call_value(a[2], [x]) if is_some else a[1]
             if end == "map_or_else":
                 return self.call_value(a[2], [x]) if is_some else self.call_value(a[1], [])
+            if end == "transpose":
+                if not is_some:
+                    return ok(none())
+                if isinstance(x, Enum):
+                    return ok(some(x.fields[0])) if x.variant == 0 else err(x.fields[0] if x.fields else UNKNOWN)
+                return UNKNOWN
             if end == "is_some":
                 return is_some
             if end == "is_none":
@@ -429,6 +435,12 @@ class Machine:
                 return ok(self.call_value(a[1], [x])) if is_ok else a0
             if end == "map_err":
                 return a0 if is_ok else err(self.call_value(a[1], [x]))
+            if end == "transpose":
+                if not is_ok:
+                    return some(err(x))
+                if isinstance(x, Enum):
+                    return some(ok(x.fields[0])) if x.variant == 1 else none()
+                return UNKNOWN
             if end == "and_then":
                 return self.call_value(a[1], [x]) if is_ok else a0
             if end == "or_else":
@@ -808,9 +820,9 @@ class FnItem:
         return "fn:" + self.name.rsplit("::", 1)[-1]
 
 
-OPTION_METHODS = {"map", "and_then", "ok_or", "ok_or_else", "unwrap_or", "unwrap_or_else", "map_or", "map_or_else", "is_some",
+OPTION_METHODS = {"transpose", "map", "and_then", "ok_or", "ok_or_else", "unwrap_or", "unwrap_or_else", "map_or", "map_or_else", "is_some",
                   "is_none", "or", "or_else", "filter", "unwrap", "expect", "take", "replace"}
-RESULT_METHODS = {"map", "map_err", "and_then", "or_else", "ok", "err", "is_ok", "is_err", "unwrap_or", "unwrap_or_else", "unwrap",
+RESULT_METHODS = {"transpose", "map", "map_err", "and_then", "or_else", "ok", "err", "is_ok", "is_err", "unwrap_or", "unwrap_or_else", "unwrap",
                   "expect"}
 ITER_METHODS = {"map", "filter", "filter_map", "enumerate", "rev", "skip", "take", "zip", "chain", "collect", "count", "last",
                 "for_each", "fold", "try_fold", "try_for_each", "any", "all", "find", "position", "find_map", "next"}
